@@ -259,7 +259,7 @@ Definition r_paragraph (term : term_t) (st : bstate) (startLine endLine0 : Z) (s
   do raw <- get_lines st1 startLine nextLine (b_blkIndent st1) false;
   let st2 := st_line st1 nextLine in
   let st3 := bpush st2 [112; 97; 114; 97; 103; 114; 97; 112; 104; 95; 111; 112; 101; 110] [112] 1 (map_tok startLine nextLine) in
-  let st4 := push_inline st3 (py_strip raw) startLine nextLine in
+  let st4 := push_inline st3 (strip_by is_space raw) startLine nextLine in
   let st5 := bpush st4 [112; 97; 114; 97; 103; 114; 97; 112; 104; 95; 99; 108; 111; 115; 101] [112] (-1) (fun t => t) in
   Ok (true, st_parent st5 old).
 
@@ -278,7 +278,7 @@ Definition r_lheading (term : term_t) (st : bstate) (startLine endLine : Z) (sil
         let st2 := st_line st1 (nextLine + 1) in
         let st3 := bpush st2 [104; 101; 97; 100; 105; 110; 103; 95; 111; 112; 101; 110] (hN level) 1
                          (fun t => map_tok startLine (nextLine + 1) (set_markup t [marker])) in
-        let st4 := push_inline st3 (py_strip raw) startLine nextLine in
+        let st4 := push_inline st3 (strip_by is_space raw) startLine nextLine in
         let st5 := bpush st4 [104; 101; 97; 100; 105; 110; 103; 95; 99; 108; 111; 115; 101] (hN level) (-1)
                          (fun t => set_markup t [marker]) in
         Ok (true, st_parent st5 old)
